@@ -52,6 +52,7 @@ inductive Atom where
   | int (lo hi : Option Int)          -- integer family, builtin range ∩ facets
   | dec                               -- xsd:double / float / decimal (lexical form only)
   | enum (vs : List Str)
+  | ienum (vs : List Int)             -- enumeration on an integer base type: compared in the value space ("00" is 0)
   | bool
   | hex (bytes : Nat)                 -- xsd:hexBinary with a length facet
   | pat (r : Re)                      -- xsd:token / string restricted by a pattern
@@ -102,6 +103,9 @@ def Atom.accepts : Atom → Str → Bool
       | some v => (match lo with | none => true | some b => decide (b ≤ v)) && (match hi with | none => true | some b => decide (v ≤ b))
   | .dec, s => decLex (trimWs s)
   | .enum vs, s => vs.contains (trimWs s)
+  | .ienum vs, s => match intLex (trimWs s) with
+      | none => false
+      | some v => vs.contains v
   | .bool, s => let t := trimWs s; t == "true".toList || t == "false".toList || t == "1".toList || t == "0".toList
   | .hex n, s => let t := trimWs s; t.length == 2 * n && t.all isHex
   | .pat r, s => r.matches (trimWs s)
